@@ -249,10 +249,7 @@ fn emit_expression_ctx(
             out.push(json!("str"));
             // If there are no expression parts (plain string or empty), emit as literal text
             let has_expressions = dynamic.parts.iter().any(|p| {
-                matches!(
-                    p,
-                    DynamicStringPart::Expression(_) | DynamicStringPart::Sequence(_)
-                )
+                !matches!(p, DynamicStringPart::Text(_))
             });
             if !has_expressions {
                 // Plain string (possibly empty) — emit as single text token
@@ -282,7 +279,7 @@ fn emit_expression_ctx(
                             out.push(json!("out"));
                             out.push(json!("/ev"));
                         }
-                        DynamicStringPart::Sequence(_) => {
+                        DynamicStringPart::Sequence(_) | DynamicStringPart::Conditional { .. } => {
                             // Sequences inside string literals not supported here; emit raw
                             out.push(json!(format!("^{value}")));
                         }
@@ -528,6 +525,21 @@ fn emit_dynamic_string_parts(
                     context,
                 )?);
             }
+            DynamicStringPart::Conditional {
+                condition,
+                when_true,
+                when_false,
+            } => {
+                let conditional = emit_conditional(
+                    condition,
+                    when_true,
+                    when_false.as_deref(),
+                    scope,
+                    out.len() + scope.param_offset,
+                    context,
+                )?;
+                out.extend(conditional);
+            }
         }
     }
     Ok(())
@@ -586,19 +598,11 @@ fn emit_choice_text_segment(
 
     out.push(json!("str"));
     if !text.is_empty() {
-        // Parse the text for inline {expr} and {&sequence} interpolations
+        // Parse the text for escapes and inline {expr}, {cond: a|b} and {&sequence} logic
         let dynamic = parse_dynamic_string(text).unwrap_or_else(|_| DynamicString {
             parts: vec![DynamicStringPart::Text(text.to_owned())],
         });
-        let has_inline = dynamic
-            .parts
-            .iter()
-            .any(|p| !matches!(p, DynamicStringPart::Text(_)));
-        if has_inline {
-            emit_choice_text_parts(&dynamic.parts, out, scope, context)?;
-        } else {
-            emit_choice_plain_text(text, out);
-        }
+        emit_choice_text_parts(&dynamic.parts, out, scope, context)?;
     }
     for tag in tags {
         emit_tag(tag, out, scope, context)?;
@@ -622,15 +626,7 @@ fn emit_choice_text_content(
         let dynamic = parse_dynamic_string(text).unwrap_or_else(|_| DynamicString {
             parts: vec![DynamicStringPart::Text(text.to_owned())],
         });
-        let has_inline = dynamic
-            .parts
-            .iter()
-            .any(|p| !matches!(p, DynamicStringPart::Text(_)));
-        if has_inline {
-            emit_choice_text_parts(&dynamic.parts, out, scope, context)?;
-        } else {
-            emit_choice_plain_text(text, out);
-        }
+        emit_choice_text_parts(&dynamic.parts, out, scope, context)?;
     }
     for tag in tags {
         emit_tag(tag, out, scope, context)?;
